@@ -2,6 +2,7 @@
 // Everything here is *workload*; no expectation about the library's results
 // is produced here except the 'mustfail' class labels taken from the
 // property statements.
+#include <cmath>
 #include <algorithm>
 #include <cstdlib>
 #include <cstring>
@@ -150,16 +151,22 @@ static std::string heavy_setting(Rng &g, int *mi_out) {
       return s + "$";
     }
     case 2: return std::string("$7$") + B64[g.range(11, 14)] + enc30(8) + enc30(g.chance(1, 3) ? (unsigned)g.range(2, 4) : 1) + b64salt(g, (size_t)g.range(4, 20)) + "$";
-    case 3: { static const int bm[] = {3, 4, 5, 6}; int b = bm[g.below(4)]; *mi_out = b; return ref_gensalt(PREFIX[b], (unsigned long)g.range(8, 9), rnd_bytes(g, 16)); }
-    case 7: case 8: return std::string(PREFIX[mi]) + "rounds=" + std::to_string(g.chance(1, 3) ? g.range(4990, 5010) : g.range(12001, 120000)) + "$" + b64salt(g, (size_t)g.range(1, 16)) + "$";
+    case 3: { static const int bm[] = {3, 4, 5, 6}; int b = bm[g.below(4)]; *mi_out = b; return ref_gensalt(PREFIX[b], (unsigned long)(g.chance(1, 4) ? g.range(10, 12) : g.range(8, 9)), rnd_bytes(g, 16)); }
+    case 7: case 8: {
+      // values deployments use (glibc/libxcrypt default 5000, passlib 535000 / 656000, round numbers), powers of two +- 2
+      // (where a tree might switch loops), and the rest log-uniform up to 1.2 million (about a second of native work)
+      static const long pop[] = {5000, 10000, 50000, 100000, 500000, 535000, 656000, 1000000};
+      long rn = g.chance(1, 3) ? pop[g.below(8)] + g.range(-3, 3) : g.chance(1, 3) ? (1L << g.range(13, 20)) + g.range(-2, 2) : (long)(12001.0 * pow(100.0, (double)g.below(1000) / 1000.0));
+      return std::string(PREFIX[mi]) + "rounds=" + std::to_string(rn) + "$" + b64salt(g, (size_t)g.range(1, 16)) + "$";
+    }
     case 9: {
       static const long edge[] = {8192, 16384, 32768, 65536, 131072, 196608, 262144};
-      long it = g.chance(1, 2) ? edge[g.below(7)] + g.range(-2, 2) : g.range(6001, 300000);
+      long it = g.chance(1, 2) ? edge[g.below(7)] + g.range(-2, 2) : g.chance(1, 4) ? (long)(300000.0 * pow(8.0, (double)g.below(1000) / 1000.0)) : g.range(6001, 300000);
       return "$sha1$" + std::to_string(it) + "$" + b64salt(g, (size_t)g.range(1, 64)) + "$";
     }
-    case 10: return "$md5,rounds=" + std::to_string(g.range(9001, 60000)) + "$" + b64salt(g, (size_t)g.range(1, 16)) + "$";
+    case 10: return "$md5,rounds=" + std::to_string(g.chance(1, 4) ? (1L << g.range(14, 18)) + g.range(-2, 2) : g.range(9001, 60000)) + "$" + b64salt(g, (size_t)g.range(1, 16)) + "$";
     default: {
-      unsigned v = (unsigned)g.range(30001, 600000); std::string s = "_"; for (int i = 0; i < 4; i++) { s += B64[v & 63]; v >>= 6; }
+      unsigned v = g.chance(1, 4) ? (unsigned)((1L << g.range(16, 23)) + g.range(-2, 2)) : (unsigned)g.range(30001, 600000); std::string s = "_"; for (int i = 0; i < 4; i++) { s += B64[v & 63]; v >>= 6; }
       return s + b64salt(g, 4);
     }
   }
@@ -284,8 +291,15 @@ static Req invalid_req(Rng &g, Pool &p, bool secret) {
       r.st = Bytes(std::string(st[g.below(5)])); r.cls = "star"; r.mustfail = true; r.m = "none"; break;
     }
     case 6: {
-      static const char *up[] = {"$9$abcdefgh", "$zz$abc$", "$", "$$", "$2$04$abcdefghijklmnopqrstuu", "$2c$04$abcdefghijklmnopqrstuu", "$8$", "$4$salt$", "$argon2id$v=19$m=16,t=2,p=1$c2FsdA$", "$0"};
-      r.st = Bytes(std::string(up[g.below(10)])); r.cls = "unknown-prefix"; r.mustfail = true; r.m = "none"; break;
+      static const char *up[] = {"$9$abcdefgh", "$zz$abc$", "$", "$$", "$2$04$abcdefghijklmnopqrstuu", "$2c$04$abcdefghijklmnopqrstuu", "$8$", "$4$salt$", "$argon2id$v=19$m=16,t=2,p=1$c2FsdA$", "$0",
+                                 "$sha1crypt$24680$GGXpNqoJvglVTkGU$", "$sha1x$100$saltsaltsalt", "$sha1-old$4$ggu.H673kaZ5", "$sha12$5$salt$", "$sha1", "$md5x$salt$", "$md5crypt$salt$", "$md55$abcdefgh$", "$md5"};
+      r.st = Bytes(std::string(up[g.below(19)])); r.cls = "unknown-prefix"; r.mustfail = true; r.m = "none";
+      if (g.chance(1, 4)) {   // a valid sha1crypt / sunmd5 setting with letters wedged in behind the tag
+        static const char *tail[] = {"crypt", "x", "-old", "2", "_", "SHA"};
+        std::string v = g.chance(1, 2) ? "$sha1" + std::string(tail[g.below(6)]) + "$" + std::to_string(g.range(1, 80)) + "$" + b64salt(g, 8) + "$" : "$md5" + std::string(tail[g.below(6)]) + "$" + b64salt(g, 8) + "$";
+        r.st = Bytes(v);
+      }
+      break;
     }
     case 8: {  // a numeric parameter field that is not a plain decimal number
       static const char *pfx[] = {"$6$rounds=", "$5$rounds=", "$md5,rounds=", "$2b$", "$2y$", "$2a$"};
@@ -547,7 +561,7 @@ static J plan_c07(uint64_t seed, const std::string &tier, bool secrets, const st
         else { op["k"] = "encrypt_r"; op["obj"] = o; op["blk"] = hex64(g, (int)g.below(3)); op["flag"] = (long long)g.below(2); }
       }
     } else if (x < 97) {
-      op["k"] = "scribble"; op["obj"] = (long long)g.below((uint64_t)nobj); op["what"] = g.chance(1, 3) ? "zero" : "garbage"; op["gseed"] = (long long)g.below(100000);
+      op["k"] = "scribble"; op["obj"] = (long long)g.below((uint64_t)nobj); op["what"] = g.chance(1, 4) ? "appfields" : g.chance(1, 3) ? "zero" : "garbage"; op["gseed"] = (long long)g.below(100000);
       keyed[(size_t)op.i("obj")] = 0;
     } else {
       op["k"] = "slot_set"; op["slot"] = (long long)g.below((uint64_t)nslots);
@@ -629,9 +643,14 @@ static J plan_c12(uint64_t seed, const std::string &tier) {
   for (int gi = 0; gi < groups; gi++) {
     int mi = (int)g.below(17); unsigned long count = g.chance(3, 4) ? 0 : (mi == 7 || mi == 8 ? 5000 : mi <= 1 ? 2 : mi >= 3 && mi <= 6 ? 5 : mi == 2 ? 6 : mi == 13 ? 7 : 0);
     int reps = (int)g.range(1, g.chance(1, 200) ? 600 : g.chance(1, 10) ? 40 : 6);   // rarely a very long run: per-process counters, reservoirs
+    // ... and very rarely a process that lives for tens of thousands of calls (a counter that wraps, a reservoir that
+    // runs dry): beyond the first 40 calls only what needs no reference is checked (a draw in every successful call)
+    bool marathon = gi == 0 && g.chance(1, 1500);
+    if (marathon) reps = (int)(1000.0 * pow(30.0, (double)g.below(1000) / 1000.0));
     for (int i = 0; i < reps; i++) {
       J op = J::obj(); static const char *ks[] = {"gensalt", "gensalt_rn", "gensalt_ra"};
       op["k"] = ks[g.below(3)];
+      if (marathon && i >= 40) { op["noref"] = 1; op["k"] = "gensalt_rn"; }
       if (mi == 16) op["pf"] = J(); else op["pf"] = Bytes(std::string(PREFIX[mi])).to_json();
       op["count"] = (long long)count; op["rb"] = J(); op["nrb"] = g.chance(1, 4) ? (long long)g.below(64) : 0;   // nrbytes is ignored when rbytes is NULL
       ops.push(op);
@@ -667,6 +686,8 @@ static J plan_c14(uint64_t seed, const std::string &tier) {
         default: { long b = g.range(1, 64); op["blk"] = b; op["rec"] = b; break; }
       }
       if (g.chance(1, 12)) { static const long edge[] = {(long)CDSZ - 1, (long)CDSZ + 1, (long)CDSZ - 2, 1, 2, 3}; long b = edge[g.below(6)]; op["blk"] = b; op["rec"] = g.chance(1, 4) ? b - 1 : b; }
+      // blocks far larger than the structure (old glibc's struct crypt_data had 131232 bytes; multiples of sizeof; a megabyte)
+      if (g.chance(1, 10)) { static const long big[] = {2 * (long)CDSZ, 2 * (long)CDSZ + 1, 65536, 4 * (long)CDSZ - 1, 4 * (long)CDSZ, 4 * (long)CDSZ + 1, 131232, 8 * (long)CDSZ, 1048576, 1048577, 16777216}; long b = big[g.below(11)]; op["blk"] = b; op["rec"] = g.chance(3, 4) ? b : g.chance(1, 2) ? (long)CDSZ : b - (long)g.range(1, 4096); }
       // what the caller's block holds before the library sees it
       static const char *fills[] = {"dirty", "dirty", "zero", "star", "hashlike", "ones"};
       op["fill"] = fills[g.below(6)];
@@ -722,6 +743,7 @@ static J plan_c17(uint64_t seed, const std::string &tier) {
     } else if (x < 75) {
       int o = (int)g.below((uint64_t)nobj);
       if (!keyed[(size_t)o]) { op["k"] = "setkey_r"; op["obj"] = o; op["key"] = hex64(g, 0); keyed[(size_t)o] = 1; }
+      else if (g.chance(1, 6)) { op["k"] = "scribble"; op["obj"] = o; op["what"] = "appfields"; op["gseed"] = (long long)g.below(100000); }   // the application uses the fields that are its own; the key stays
       else { op["k"] = "encrypt_r"; op["obj"] = o; op["blk"] = (!lastblk.empty() && g.chance(1, 2)) ? lastblk : hex64(g, des_style(g, 3)); op["flag"] = (long long)g.below(2); }
     } else if (x < 83) {
       op["k"] = "des_block"; op["key"] = hexenc(rnd_bytes(g, 8)); op["blk"] = hexenc(rnd_bytes(g, 8)); op["flag"] = (long long)g.below(2); op["gseed"] = (long long)g.below(1000);
@@ -837,6 +859,15 @@ J c15_corpus_item(long idx, long *total) {
         it.op = op; items.push_back(it); break;
       }
     }
+    // regions of 1 GiB and more, really used (about 1.5 s of native work per GiB): sizes at which a tree might switch to
+    // 1 GiB pages, or at which a length no longer fits an int (2 GiB) or 32 bits (4 GiB).  The last two: thorough tier only.
+    for (int l2 = 10; l2 <= 12; l2++)
+      for (int huge = 0; huge < 2; huge++) {
+        Rng gb(1000 + (uint64_t)l2, "corpus-big"); std::string b = big_setting(gb, 0, l2); if (b.empty()) continue;
+        Item it; it.setup = J::arr(); it.setup.push(slot0(-1, 0)); J op = J::obj(); op["k"] = "crypt_ra"; op["slot"] = 0; op["ph"] = Bytes(phrase).to_json(); op["st"] = Bytes(b).to_json(); op["m"] = "yescrypt"; op["cls"] = "valid-big";
+        op["huge_ok"] = huge; op["gib"] = (long long)(1 << (l2 - 10));
+        it.op = op; items.push_back(it);
+      }
     for (int mi = 0; mi < 17; mi++) {
       Item it; it.setup = J::arr(); J op = J::obj(); op["k"] = "gensalt_ra"; if (mi == 16) op["pf"] = J(); else op["pf"] = Bytes(std::string(PREFIX[mi])).to_json();
       op["count"] = 0; if (mi % 2) op["rb"] = J(); else op["rb"] = Bytes(std::string(32, 'R')).to_json();
@@ -848,6 +879,7 @@ J c15_corpus_item(long idx, long *total) {
   Rng g((uint64_t)idx, "corpusplan");
   J p = base_plan("C15", "asan", (uint64_t)idx, "corpus", g);
   p["env"]["map_limit_mib"] = 300;
+  if (items[(size_t)idx].op.has("gib")) { p["env"]["map_limit_mib"] = 0; p["big"] = items[(size_t)idx].op.i("gib"); if (items[(size_t)idx].op.i("gib") > 1) p["thorough_only"] = 1; }
   J t = J::obj(); J objs = J::arr(); { J o = J::obj(); o["align"] = 0; o["init"] = "garbage"; o["gseed"] = 5; objs.push(o); } t["objs"] = objs; t["slots"] = 1;
   J ops = items[(size_t)idx].setup; ops.push(items[(size_t)idx].op);
   t["ops"] = ops; p["tasks"].push(t);
@@ -860,15 +892,21 @@ static J plan_c08(uint64_t seed, const std::string &tier) {
   Rng g(seed, "plan"); Pool &pool = pool_for(seed >> 6);
   J p = base_plan("C08", "thr", seed, tier, g);
   int nt = (int)g.range(2, 6);
+  // one plan in 25: a crowd (9-20 callers, one or two calls each, biased to one method so that many of them are inside
+  // the same code at once): limits on concurrent callers, per-thread slots that run out, counters shared by design
+  bool crowd = g.chance(1, 25); int crowd_mi = (int)g.below(16);
+  if (crowd) nt = (int)g.range(9, 20);
   for (int ti = 0; ti < nt; ti++) {
     int nobj = 1 + (int)g.below(2);
     J t = J::obj(); t["objs"] = mk_objs(g, nobj); t["slots"] = 1;
-    J ops = J::arr(); int n = (int)g.range(1, 4);
+    J ops = J::arr(); int n = (int)g.range(1, crowd ? 2 : 4);
     std::vector<int> keyed((size_t)nobj, 0);
     for (int i = 0; i < n; i++) {
       unsigned x = (unsigned)g.below(100); J op = J::obj();
+      if (crowd && x < 70) x = 0;
       if (x < 55) {
         Req r = g.chance(1, 6) ? invalid_req(g, pool, false) : valid_req(g, pool, false, 2);
+        if (crowd && g.chance(3, 4)) for (int tries = 0; tries < 40 && r.m != METHODS[crowd_mi]; tries++) r = valid_req(g, pool, false, 2);
         op["k"] = hash_kind(g, false); place(g, op, nobj, 1); put_req(op, r);
         if (g.chance(1, 4)) { op["pre"] = "garbage"; op["gseed"] = (long long)g.below(100000); }
         if (op.has("obj")) keyed[(size_t)op.i("obj")] = 0;
@@ -941,8 +979,10 @@ static J plan_c12b(uint64_t seed, const std::string &tier) {
   int mi = (int)g.below(17);
   // rarely: a process that lives long with a source that never recovers (same pinned script in every call)
   bool longrun = g.chance(1, 100); J longscript = J::obj();
+  bool marathon = longrun && g.chance(1, 6);
   if (longrun) {
     n = (int)g.range(200, 700); faulty = g.chance(1, 2) ? n : (int)g.range(100, n);
+    if (marathon) { n = (int)(1000.0 * pow(30.0, (double)g.below(1000) / 1000.0)); faulty = g.chance(1, 2) ? n : (int)g.range(1, n); }   // thousands of calls: countdowns, retry budgets, counters that wrap
     static const char *hard[] = {"enosys*", "eio*", "eintr*", "eperm*"};
     if (variant & 1) { J a = J::arr(); a.push(hard[g.below(4)]); longscript["getentropy"] = a; }
     if (variant & 2) { J a = J::arr(); a.push(g.chance(1, 3) ? "short0*" : hard[g.below(4)]); longscript["getrandom"] = a; }
@@ -956,6 +996,7 @@ static J plan_c12b(uint64_t seed, const std::string &tier) {
     op["k"] = ks[g.below(3)];
     if (mi == 16) op["pf"] = J(); else op["pf"] = Bytes(std::string(PREFIX[mi])).to_json();
     op["count"] = 0; op["rb"] = J(); op["nrb"] = 0;
+    if (marathon && i >= 40) { op["noref"] = 1; op["k"] = "gensalt_rn"; }
     if (i < faulty && longrun) op["script"] = longscript;
     else if (i < faulty) {
       J sc = J::obj();
